@@ -293,6 +293,48 @@ def _sequences(plat, ctx):
                         ctx.viol("sequence:second_query_differs_from_a_fresh_one", case, got, want)
                     else:
                         ctx.out("sequence_ok")
+    # a group Address whose members are edited IN PLACE between two queries
+    ref = "object-group G" if plat == "ios" else "addrgroup G"
+    mems = [adrs[k] for k in ("chain24", "sib24", "chain30", "host_w1", "nc_sub")]
+    probes = [adrs[k] for k in ("chain32", "chain30", "sib25", "host_w1", "chain24")]
+    for m1 in mems:
+        for m2 in mems:
+            for pr in probes:
+                for edit in ("member.line", "del", "append", "member.prefix"):
+                    ctx.ev()
+                    t1, t2, tp = (o.spellings(plat)[0][0] for o in (m1, m2, pr))
+                    case = dict(kind="sequence_members", platform=plat, first_member=t1, then=t2, probe=tp,
+                                edit=edit)
+                    if edit == "member.prefix" and (m2.is_nc or m2.cubes[0][1] == S.ALL32):
+                        continue
+                    try:
+                        g = Address(ref, platform=plat, items=[t1])
+                        p_ = Address(tp, platform=plat)
+                        p_.subnet_of(g)
+                        g.ipnets()
+                        if edit == "member.line":
+                            g.items[0].line = t2
+                            now = [m2]
+                        elif edit == "member.prefix":
+                            (b_, w_), = m2.cubes
+                            g.items[0].prefix = f"{S.int2ip(b_)}/{32 - bin(w_).count('1')}"
+                            now = [m2]
+                        elif edit == "del":
+                            g.items.append(Address(t2, platform=plat))
+                            del g.items[0]
+                            now = [m2]
+                        else:
+                            g.items.append(Address(t2, platform=plat))
+                            now = [m1, m2]
+                        got = (p_.subnet_of(g), g.subnet_of(Address("any", platform=plat)))
+                    except Exception as ex:  # noqa
+                        ctx.viol("sequence_members:exception", case, repr(ex), "answers")
+                        continue
+                    want = (any(S.cube_subset(pr.cubes[0], m.cubes[0]) for m in now), True)
+                    if tuple(map(bool, got)) != want:
+                        ctx.viol("sequence_members:answer_follows_the_old_members", case, got, want)
+                    else:
+                        ctx.out("sequence_ok")
     # `in` on one group object, twice
     pool = [a for a in (adrs[k] for k in ("chain24", "sib24", "chain30", "host_w1", "chain16", "host_ext"))
             if _ag_spelling(a, plat)]
